@@ -5,6 +5,7 @@ import (
 	"encoding/json"
 	"fmt"
 	"math"
+	"reflect"
 	"sort"
 	"strings"
 	"time"
@@ -63,7 +64,7 @@ func driveOperator(cs *core.Case, st *mstore.Store, order string) (items []strea
 	core.SetProcs(cs.O.Procs)
 	core.SetPool(cs.O.Pool)
 	st.Reset()
-	op, oerr := execution.New(plan.Expr(), st, start, end, time.Duration(cs.W.Step)*time.Millisecond, 5*time.Minute)
+	op, oerr := newPhysical(plan.Expr(), st, start, end, time.Duration(cs.W.Step)*time.Millisecond, 5*time.Minute)
 	if oerr != nil {
 		return nil, nil, oerr, nil
 	}
@@ -119,6 +120,49 @@ func driveOperator(cs *core.Case, st *mstore.Store, order string) (items []strea
 		return items[i].ID < items[j].ID
 	})
 	return
+}
+
+// newPhysical calls execution.New through reflection, so that a change of its parameter
+// list (an options struct instead of four values) does not stop the harness from building:
+// arguments are matched by type, fields of an options struct by name.
+func newPhysical(expr parser.Expr, st storage.Queryable, start, end time.Time, step, lookback time.Duration) (model.VectorOperator, error) {
+	fn := reflect.ValueOf(execution.New)
+	t := fn.Type()
+	times := []time.Time{start, end}
+	durs := []time.Duration{step, lookback}
+	var args []reflect.Value
+	for i := 0; i < t.NumIn(); i++ {
+		in := t.In(i)
+		switch {
+		case reflect.TypeOf(start) == in && len(times) > 0:
+			args = append(args, reflect.ValueOf(times[0]))
+			times = times[1:]
+		case reflect.TypeOf(step) == in && len(durs) > 0:
+			args = append(args, reflect.ValueOf(durs[0]))
+			durs = durs[1:]
+		case in.Kind() == reflect.Ptr && in.Elem().Kind() == reflect.Struct:
+			o := reflect.New(in.Elem())
+			for name, v := range map[string]any{"Start": start, "End": end, "Step": step, "LookbackDelta": lookback} {
+				if f := o.Elem().FieldByName(name); f.IsValid() && f.CanSet() && f.Type() == reflect.TypeOf(v) {
+					f.Set(reflect.ValueOf(v))
+				}
+			}
+			args = append(args, o)
+		case reflect.TypeOf((*parser.Expr)(nil)).Elem() == in:
+			args = append(args, reflect.ValueOf(&expr).Elem())
+		case reflect.TypeOf((*storage.Queryable)(nil)).Elem() == in:
+			args = append(args, reflect.ValueOf(&st).Elem())
+		default:
+			return nil, fmt.Errorf("harness: execution.New has a parameter of type %s that the harness cannot supply", in)
+		}
+	}
+	out := fn.Call(args)
+	var err error
+	if e, ok := out[1].Interface().(error); ok {
+		err = e
+	}
+	op, _ := out[0].Interface().(model.VectorOperator)
+	return op, err
 }
 
 type namedItem struct {
